@@ -106,6 +106,20 @@ func genDoc(rt *rapid.T, hostile bool) *gen.GraphBP {
 				Events: []gen.EventBP{{Tag: "DEAT", Date: "1901", HasDate: true}}})
 		}
 	}
+	// names, places and (below) source pointers that are longer than a file name may be on most
+	// file systems (255 bytes) and differ only behind that point; the writer of the check is in memory
+	longPrefix := ""
+	if hostile && len(g.People) > 0 && rapid.IntRange(0, 7).Draw(rt, "longPrefix") == 3 {
+		longPrefix = strings.Repeat(rapid.SampledFrom([]string{"Abcdefghi ", "Wilhelmina-", "Ж", "x"}).Draw(rt, "longUnit"), 40)
+		for len(longPrefix) < rapid.SampledFrom([]int{240, 250, 256, 300}).Draw(rt, "longLen") {
+			longPrefix += "y"
+		}
+		a := g.People[rapid.IntRange(0, len(g.People)-1).Draw(rt, "longPerson")]
+		a.Names = []gen.Str{gen.Str(longPrefix + "a /Long/")}
+		g.People = append(g.People,
+			&gen.PersonBP{ID: fmt.Sprintf("I%d", len(g.People)+1), Names: []gen.Str{gen.Str(longPrefix + "b /Long/")}, Events: []gen.EventBP{{Tag: "DEAT", Date: "1902", HasDate: true}, {Tag: "RESI", Place: gen.Str(longPrefix + "c"), Date: "1893", HasDate: true}}},
+			&gen.PersonBP{ID: fmt.Sprintf("I%d", len(g.People)+2), Names: []gen.Str{gen.Str(longPrefix + "a /Long/")}, Events: []gen.EventBP{{Tag: "DEAT", Date: "1903", HasDate: true}, {Tag: "RESI", Place: gen.Str(longPrefix + "d"), Date: "1894", HasDate: true}}})
+	}
 	ns := rapid.IntRange(1, 3).Draw(rt, "sources")
 	g.Sources = nil
 	used := map[string]bool{}
@@ -125,6 +139,9 @@ func genDoc(rt *rapid.T, hostile bool) *gen.GraphBP {
 		}
 		if i < len(sourcePair) {
 			id = sourcePair[i]
+		}
+		if longPrefix != "" && i < 2 && !strings.ContainsAny(longPrefix, " ") {
+			id = longPrefix + []string{"s", "t"}[i]
 		}
 		if used[id] {
 			continue
